@@ -254,7 +254,6 @@ class LedgerDomain(ParamsMixin, Domain):
         if isinstance(b, BaseTok) and op == '-' and isval(a):
             r = SUBBASE(b.g, a)
             # real arithmetic + idempotence of the clip: xbase + clip((xbase + clip(p)) - xbase) == xbase + clip(p).
-            # With projections the same identity is the numeric assumption N4 (re-projecting a stored Dykstra output returns it).
             # WITHOUT projections only.  With projections the same identity would say that Dykstra re-applied to its own output returns it, which is false
             # (finding D24: up to 0.1 in solve with init.random_initial_directions; see witnesses/d24_reprojection.py), so nothing is assumed there.
             if z3.is_app(a) and a.decl().name() == 'ABS':
